@@ -213,6 +213,8 @@ func cmdRender(args []string) {
 	uninst := fs.Int("uninst", 0, "for every k-th part case also install + uninstall on the simulated cluster (0 = never)")
 	workers := fs.Int("workers", runtime.NumCPU(), "")
 	block := fs.Int("block", 4000, "cases per block (memory)")
+	reuse := fs.Int("reuse", 0, "renders that reuse one loaded chart object (sequential; concurrent = -m)")
+	route := fs.Bool("route", false, "also render through a Configuration with a cluster connection (--dry-run=server)")
 	fs.Parse(args)
 	inAbs, _ := filepath.Abs(*in)
 	outAbs, _ := filepath.Abs(*out)
@@ -243,7 +245,7 @@ func cmdRender(args []string) {
 		if end > len(lines) {
 			end = len(lines)
 		}
-		for _, ol := range renderBlock(lines[start:end], start, hd, root, pl, *seed, *workers, *children, *uninst, *disk, *eng) {
+		for _, ol := range renderBlock(lines[start:end], start, hd, root, pl, *seed, *workers, *children, *uninst, *disk, *eng, *reuse, *route) {
 			must(enc.Encode(ol))
 		}
 	}
@@ -251,7 +253,7 @@ func cmdRender(args []string) {
 	f.Close()
 }
 
-func renderBlock(lines []render.CaseLine, offset int, hd hostDirs, root string, pl render.Plan, seed int64, workers, children, uninst int, disk, eng bool) []render.ObsLine {
+func renderBlock(lines []render.CaseLine, offset int, hd hostDirs, root string, pl render.Plan, seed int64, workers, children, uninst int, disk, eng bool, reuse int, route bool) []render.ObsLine {
 	hd.setCanary("CANARY-A")
 	hd.setDefs("absent")
 	refined := make([]render.CaseLine, len(lines))
@@ -286,6 +288,10 @@ func renderBlock(lines []render.CaseLine, offset int, hd hostDirs, root string, 
 			return // needs the canary to change: done sequentially below
 		}
 		crdsFirst[i] = render.ObserveInProcess(accs[i], mat, pl, seed)
+		render.ObserveReuse(accs[i], mat, reuse, pl.M, seed)
+		if route {
+			render.ObserveRoute(accs[i], mat, seed)
+		}
 		if uninst > 0 && cl.Case.Fam == "part" && (offset+i)%uninst == 0 {
 			kinds, err := render.ObserveUninstall(mat)
 			if err != nil {
